@@ -2,6 +2,7 @@ package c09
 
 import (
 	"fmt"
+	"net/http"
 	"os"
 	"sort"
 	"strings"
@@ -15,6 +16,36 @@ import (
 	"verif/harness/pt"
 	"verif/harness/s3c"
 )
+
+// every write carries two user metadata entries: gen=<meta> and one whose *name* depends on the value, so that the
+// entries of successive writes of a key differ in their names too (an entry left over from an earlier version shows)
+func metaHdrs(meta string) []s3c.KV {
+	n := 0
+	for _, c := range meta {
+		n += int(c)
+	}
+	return []s3c.KV{{K: "x-amz-meta-gen", V: meta}, {K: fmt.Sprintf("x-amz-meta-x%d", n%3), V: "of-" + meta}}
+}
+
+func wantSet(meta string) string {
+	var out []string
+	for _, kv := range metaHdrs(meta) {
+		out = append(out, kv.K+"="+kv.V)
+	}
+	sort.Strings(out)
+	return fmt.Sprint(out)
+}
+
+func metaSet(h http.Header) string {
+	var out []string
+	for k, v := range h {
+		if lk := strings.ToLower(k); strings.HasPrefix(lk, "x-amz-meta-") {
+			out = append(out, lk+"="+strings.Join(v, ","))
+		}
+	}
+	sort.Strings(out)
+	return fmt.Sprint(out)
+}
 
 func TestMain(m *testing.M) { pt.Main(m, false) }
 
@@ -153,12 +184,15 @@ func execA(c caseA) (st stats, err error) {
 		if got := r.Header.Get("x-amz-meta-gen"); got != e.Meta {
 			return fmt.Errorf("%s: version %s of %q carries metadata gen=%q, it was written with %q", where, e.ID, keyNames[k%len(keyNames)], got, e.Meta)
 		}
+		if got, want := metaSet(r.Header), wantSet(e.Meta); got != want {
+			return fmt.Errorf("%s: version %s of %q carries the user metadata %s, it was written with %s", where, e.ID, keyNames[k%len(keyNames)], got, want)
+		}
 		// the same version through HEAD: its own length and metadata
 		h, err := cl.Call("HEAD", path(k), s3c.Q("versionId", e.ID), nil, nil)
 		if err != nil {
 			return fmt.Errorf("SETUP: transport: %v", err)
 		}
-		if h.Status != 200 || h.Header.Get("Content-Length") != fmt.Sprint(len(e.Body)) || h.Header.Get("x-amz-meta-gen") != e.Meta {
+		if h.Status != 200 || h.Header.Get("Content-Length") != fmt.Sprint(len(e.Body)) || h.Header.Get("x-amz-meta-gen") != e.Meta || metaSet(h.Header) != wantSet(e.Meta) {
 			return fmt.Errorf("%s: HEAD of version %s of %q answers %d with Content-Length %q and gen=%q, GET returns its %d bytes and gen=%q", where, e.ID, keyNames[k%len(keyNames)], h.Status, h.Header.Get("Content-Length"), h.Header.Get("x-amz-meta-gen"), len(e.Body), e.Meta)
 		}
 		return nil
@@ -208,7 +242,7 @@ func execA(c caseA) (st stats, err error) {
 		case "put":
 			data := body(o)
 			meta := fmt.Sprintf("g%d", o.Seed)
-			r, err := cl.Call("PUT", path(k), nil, []s3c.KV{{K: "x-amz-meta-gen", V: meta}}, data)
+			r, err := cl.Call("PUT", path(k), nil, metaHdrs(meta), data)
 			if err != nil {
 				return fmt.Errorf("SETUP: transport: %v", err)
 			}
@@ -271,7 +305,7 @@ func execA(c caseA) (st stats, err error) {
 			return push(k, entry{ID: r.Header.Get("x-amz-version-id"), Body: e.Body, Meta: e.Meta}, where)
 		case "badput":
 			// an upload that is refused (its Content-MD5 is not the body's) leaves the key's versions as they were
-			r, err := cl.Call("PUT", path(k), nil, []s3c.KV{{K: "Content-MD5", V: "1B2M2Y8AsgTpgAmY7PhCfg=="}, {K: "x-amz-meta-gen", V: "bad"}}, body(o))
+			r, err := cl.Call("PUT", path(k), nil, append([]s3c.KV{{K: "Content-MD5", V: "1B2M2Y8AsgTpgAmY7PhCfg=="}}, metaHdrs("bad")...), body(o))
 			if err != nil {
 				return fmt.Errorf("SETUP: transport: %v", err)
 			}
@@ -290,7 +324,7 @@ func execA(c caseA) (st stats, err error) {
 				return nil
 			}
 			meta := fmt.Sprintf("s%d", o.Seed)
-			r, err := cl.Call("PUT", path(k), nil, []s3c.KV{{K: "x-amz-copy-source", V: b + "/" + keyNames[k]}, {K: "x-amz-metadata-directive", V: "REPLACE"}, {K: "x-amz-meta-gen", V: meta}}, nil)
+			r, err := cl.Call("PUT", path(k), nil, append([]s3c.KV{{K: "x-amz-copy-source", V: b + "/" + keyNames[k]}, {K: "x-amz-metadata-directive", V: "REPLACE"}}, metaHdrs(meta)...), nil)
 			if err != nil {
 				return fmt.Errorf("SETUP: transport: %v", err)
 			}
@@ -301,7 +335,7 @@ func execA(c caseA) (st stats, err error) {
 		case "mpu":
 			data := body(o)
 			meta := fmt.Sprintf("m%d", o.Seed)
-			r := cl.MustCall("POST", path(k), s3c.Q("uploads", ""), []s3c.KV{{K: "x-amz-meta-gen", V: meta}}, nil)
+			r := cl.MustCall("POST", path(k), s3c.Q("uploads", ""), metaHdrs(meta), nil)
 			var ini s3c.InitiateResult
 			if !r.OK() || s3c.ParseXML(r, &ini) != nil {
 				return nil
